@@ -91,6 +91,31 @@ def cfg_part(rep, shard):
                     rep.fail('C18:cfg.not_twice', 'R1 used twice', inp)
 
 
+    # a grammar with productions whose codomain has several objects (they can never rewrite a single symbol: they are
+    # ignored), one of them starting with a non-terminal that does get expanded
+    adv = MTy('ADV')
+    R4, R5 = MBox('R4', v @ adv, vp @ adv), MBox('R5', n @ n, np_ @ np_)
+    grammar2 = cfg.CFG(R0, R4, R1, R5, R2, R3, *words, cfg.Word('quickly', adv))
+    prods2 = set(grammar2.productions)
+    for seed in range(shard[0], 40, shard[1]):
+        for max_depth in (8, 20):
+            inp = 'CFG(R0..R5, words).generate(S, 5, %d, seed=%d)' % (max_depth, seed)
+            got = common.outcome(lambda: list(grammar2.generate(s, 5, max_depth, max_iter=30, seed=seed)))
+            rep.case((inp,))
+            if got[0] != 'ok':
+                rep.fail('C18:cfg.raises', 'generate raised %r' % (got[1],), inp)
+                continue
+            for sent in got[1]:
+                rep.case((inp, repr(sent)))
+                why = common.wf_reason(sent)
+                if why:
+                    rep.fail('C01:cfg.wf', why, inp)
+                if sent.cod != s or sent.dom != MTy():
+                    rep.fail('C18:cfg.derivation', 'sentence has type %r -> %r' % (sent.dom, sent.cod), inp)
+                if not set(sent.boxes) <= prods2:
+                    rep.fail('C18:cfg.productions', 'a box is not one of the productions', inp)
+
+
 def slash_types():
     x, y, z = biclosed.Ty('x'), biclosed.Ty('y'), biclosed.Ty('z')
     base = [x, y, x @ y, x << y, x >> y, (x << y) >> z, x << (y @ z), (x @ y) >> z, (x << y) << (z >> x), biclosed.Ty()]
